@@ -126,7 +126,7 @@ func sanitizersForAttributeValue(c context) ([]string, error) {
 	if err != nil {
 		return nil, err
 	}
-	if sc0.isEnum() && c.attr.value != "" {
+	if sc0.isEnum() && (c.attr.value != "" || c.attr.dynamic) {
 		return nil, fmt.Errorf("partial substitutions are disallowed in the %q attribute value context of a %q element", c.attr.name, c.element.name)
 	}
 	if sc0 == sanitizationContextURLSet && (c.attr.value != "" || c.attr.dynamic) {
@@ -256,7 +256,7 @@ func validateTextAfterAction(c context, text string) error {
 	for _, elem := range elems {
 		for _, attr := range attrs {
 			sc, err := sanitizationContextForAttrVal(elem, attr, c.linkRel)
-			if err == nil && sc == sanitizationContextURLSet {
+			if err == nil && (sc == sanitizationContextURLSet || sc.isEnum()) {
 				return fmt.Errorf("%q after an action in the %q attribute value of this %q element: partial substitutions are disallowed", text, attr, elem)
 			}
 			if err != nil || !sc.isURLorTrustedResourceURL() {
